@@ -10,7 +10,22 @@ from pC06 import run_impl, coq_case, effective
 TOL = 1e-9
 
 
+# "caller arrays" mode: within one case the SAME numpy.longdouble array objects are passed to every call that uses the
+# same coordinate / weight lists (a caller fitting one data set several times - other centre, rescaled weights, ...)
+_LD = {'on': False, 'cache': {}}
+
+
+def _shared(lst):
+    key = id(lst)
+    if key not in _LD['cache']:
+        _LD['cache'][key] = (lst, np.array(lst, dtype=np.longdouble))     # keep lst alive: ids stay unique
+    return _LD['cache'][key][1]
+
+
 def arrs(pr):
+    if _LD['on']:
+        return (_shared(pr['xy']), _shared(pr['uv']), None if pr['wxy'] is None else _shared(pr['wxy']),
+                None if pr['wuv'] is None else _shared(pr['wuv']))
     xy, uv = np.array(pr['xy'], dtype=float), np.array(pr['uv'], dtype=float)
     wxy = None if pr['wxy'] is None else np.array(pr['wxy'], dtype=float)
     wuv = None if pr['wuv'] is None else np.array(pr['wuv'], dtype=float)
@@ -84,6 +99,8 @@ def run(ck):
         nclip = rng.choice([0, 2, 3])
         sigma = (rng.choice([2.0, 2.5, 3.0]), rng.choice(['rmse', 'mae', 'std']))
         accum = rng.random() < 0.5
+        _LD['on'], _LD['cache'] = (t % 3 == 0), {}
+        ck.count('caller_arrays', 'shared longdouble objects' if _LD['on'] else 'fresh float64 per call')
         try:
             f0 = fit_clip(lf, pr, nclip, sigma, accum)
         except (lf.SingularMatrixError, lf.NotEnoughPointsError, ValueError):
